@@ -64,6 +64,8 @@ def body(mc, p):
         choices = ["stop"]
         if not down:
             choices.append("submit")
+            if kind in ("cancel_on_shutdown", "map", "timeout"):
+                choices.append("submit_precancelled")
             queued = [it for it in base.items if it.state == "queued" and it.future is not None and not it.future.done()]
             if queued:
                 choices += ["run_ok", "run_fail"]
@@ -81,6 +83,10 @@ def body(mc, p):
                 fs.append(ex.submit(lambda: "v"))
             else:
                 fs.append(ex.submit(lambda: "v"))
+            model["created"] += 1
+        elif ev == "submit_precancelled":
+            base.precancel_next = 1
+            fs.append(ex.submit(lambda: "v"))
             model["created"] += 1
         elif ev == "late_submit":
             try:
